@@ -113,3 +113,21 @@ Example C18_nonvacuous_decode_union :
   maxold 3 (fst (unpack_top env0 (TMap ODict TAtom (TUnion [TAtom; TSeq OList TAtom]))
                             (VMap KDict 0 [(VAtom 0%Z, VSeq KList 1 [VAtom 5%Z]); (VAtom 1%Z, VAtom 2%Z)]) 3)) = [].
 Proof. vm_compute. repeat split; reflexivity. Qed.
+
+(* Type wrappers that the generator unwraps and re-dispatches (Final, Annotated, NewType, PEP 695
+   aliases, Required / NotRequired / ReadOnly) are transparent: every theorem above holds for the
+   wrapped type exactly as for the type itself; in particular a Final[...] container is copied by
+   default like any other. *)
+Theorem C18_wrapper_transparent : forall E call N t v n,
+  pack_top E call N (TWrap t) v n = pack_top E call N t v n /\
+  unpack_top E (TWrap t) v n = unpack_top E t v n.
+Proof. intros. split; reflexivity. Qed.
+Print Assumptions C18_wrapper_transparent.
+
+Example C18_nonvacuous_final :
+  let t := TWrap (TMap ODict TAtom (TWrap (TSeq OList TAtom))) in     (* Final[Dict[str, Annotated[List[int], ..]]] *)
+  let v := VMap KDict 0 [(VAtom 0%Z, VSeq KList 1 [VAtom 1%Z])] in
+  conforms env0 v t = true /\ anyfree t = true /\
+  maxold 2 (fst (pack_top env0 None [] t v 2)) = [] /\
+  fst (pack_top env0 None [OList; ODict] t v 2) = v.
+Proof. vm_compute. repeat split; reflexivity. Qed.
